@@ -33,6 +33,13 @@ Theorem C15_foreign_release_harmless : forall tr s c id,
 Proof. exact guard_nonholder_release_harmless. Qed.
 Print Assumptions C15_foreign_release_harmless.
 
+(* ... and for ids of any origin (never issued by this guard, zero, negative, issued to
+   somebody who is still queued): a release of anything but the head id changes nothing. *)
+Theorem C15_release_non_head_noop : forall reset (s : gst) id,
+  g_head s <> Some id -> g_release reset s id = s.
+Proof. exact guard_release_non_head_noop. Qed.
+Print Assumptions C15_release_non_head_noop.
+
 (* The head of a non-empty queue is always a holder or an enabled pending start. *)
 Theorem C15_head_progress : forall tr s h,
   own_trace false init tr = true -> run false init tr = Some s ->
